@@ -131,7 +131,7 @@ func (r *rw) site(pos token.Pos, detail string) ast.Expr {
 	return &ast.BasicLit{Kind: token.STRING, Value: strconv.Quote(s)}
 }
 
-func str(s string) ast.Expr { return &ast.BasicLit{Kind: token.STRING, Value: strconv.Quote(s)} }
+func str(s string) ast.Expr  { return &ast.BasicLit{Kind: token.STRING, Value: strconv.Quote(s)} }
 func id(s string) *ast.Ident { return ast.NewIdent(s) }
 func call(fn string, args ...ast.Expr) *ast.CallExpr {
 	return &ast.CallExpr{Fun: id(fn), Args: args}
